@@ -7,5 +7,5 @@ gvars == <<vars, hist>>
 GInit == Init /\ hist = <<>>
 GNext == Next /\ hist' = Append(hist, SubSeq(out', Len(out) + 1, Len(out')))
 GSpec == GInit /\ [][GNext]_gvars
-Dump == Done => PrintT(<<"TR", ToJson([items |-> items, fault |-> fault, outs |-> hist])>>)
+Dump == Done => PrintT(<<"TR", ToJson([items |-> items, fault |-> fault, fgn |-> fgn, outs |-> hist])>>)
 =============================================================================
